@@ -231,6 +231,15 @@ def main():
         if len(samples) < 4 and len(c["params"]) >= 3:
             samples.append({"params": c["params"], "ret": c["ret"], "shapes": c["shapes"], "ret_shape": c["ret_shape"],
                             "n_variants": len(c["variants"]), "outcomes": sorted(set(r["outcome"] for r in res))})
+    # two small programs: (i) a decorated helper WITHOUT array annotations binds an axis name in its body that its caller also uses --
+    # the caller's own consistent assignment decides; (ii) an annotation alias shared with a decorated generator function still checks
+    scen = vf.impl("impl_wrap.py", {"scenarios": [[nm, c] for nm in ("helper_binds", "alias_generator", "union_greedy") for c in ("typeguard", "beartype")]}, timeout=600)
+    for sc in scen:
+        ncalls += len(sc["wrapped"])
+        want = sc.get("expected", sc["plain"])
+        if sc["wrapped"] != want:
+            R.violation("property", "scenario %r (%s): the decorated program gives %s; a consistent axis assignment exists exactly for the calls with outcome %s" % (sc["scenario"], sc["checker"], sc["wrapped"], want),
+                        {"scenario": sc}, key={"kind": "scenario", "scenario": sc["scenario"]})
     if not proved:
         R.violation("proof", "proof obligations of props/C02.v no longer check: " + str(R.broken_proof)[-800:],
                     {"theorem_file": "coq/props/C02.v", "log": R.broken_proof}, no_input=not any(v["kind"] == "property" for v in R.violations))
